@@ -209,13 +209,15 @@ impl SlidingCounterState {
                 // More than one full bucket passed - previous is now empty
                 self.previous_count = 0;
                 self.current_count = 0;
+                self.bucket_start = now;
             } else {
-                // Exactly one bucket passed - rotate
+                // Exactly one bucket passed - rotate. The new bucket starts where the old
+                // one ended, not at the instant of this call: otherwise the previous
+                // bucket's count keeps its full weight for up to a whole extra period.
                 self.previous_count = self.current_count;
                 self.current_count = 0;
+                self.bucket_start += self.bucket_duration;
             }
-
-            self.bucket_start = now;
         }
     }
 
